@@ -387,6 +387,34 @@ pub fn drive(a: &Args) {
             }
         }
     }
+    // partitions cut at landmark code points: every single interval between two landmarks, and every tiling by three
+    // consecutive landmark cuts; picks and classes are queried at both ends of every interval
+    {
+        let lm = LANDMARKS;
+        let mut k = 0usize;
+        for (i, &lo) in lm.iter().enumerate() {
+            for &hi in &lm[i..] {
+                let ivs: Vec<Iv> = vec![(lo, hi)];
+                let chars = vec![lo.saturating_sub(1), lo, hi, (hi + 1).min(MAX_CHAR), 0, MAX_CHAR];
+                let sets = vec![(lo, hi), (lo, lo), (hi, hi), (0, MAX_CHAR)];
+                let route = ["push", "from_set", "list"][k % 3];
+                k += 1;
+                out.emit(run_behaviour(route, &ivs, &chars, &sets));
+            }
+        }
+        for w in lm.windows(4) {
+            let ivs: Vec<Iv> = vec![(w[0], w[1] - 1), (w[1], w[2] - 1), (w[2], w[3])].into_iter().filter(|iv| iv.0 <= iv.1).collect();
+            let mut chars = vec![0, MAX_CHAR];
+            let mut sets = vec![];
+            for &(lo, hi) in &ivs {
+                chars.extend([lo.saturating_sub(1), lo, hi, (hi + 1).min(MAX_CHAR)]);
+                sets.extend([(lo, hi), (lo, (hi + 1).min(MAX_CHAR))]);
+            }
+            out.emit(run_behaviour("push", &ivs, &chars, &sets));
+            out.emit(run_behaviour("list", &ivs, &chars, &sets));
+            mo.emit(merge_record(&ivs[..1], &ivs[1..]));
+        }
+    }
     // long partitions (binary-search depth grows with the length): every interval queried at its own boundaries
     let maxlen = a.sz(40, 130);
     for n in (1..=maxlen).chain([255usize, 256, 257, 300]) {
